@@ -164,6 +164,9 @@ static bool clause_is_ours(const char *clause)
     if (clause[0] != 'C' || g_prop.empty()) return true;
     for (auto &p : g_also_ours)
         if (strncmp(clause, p.c_str(), p.size()) == 0 && clause[p.size()] == '.') return true;
+    // C16: "in every failing case the container still holds exactly what it held before and remains fully usable" -- once a
+    // failure has been delivered, every container clause of the harness is C16's, whichever property normally owns it
+    if (g_faults_hit && g_prop == "C16") return true;
     if (g_faults_hit)
         for (auto &p : g_ours_after_fault)
             if (strncmp(clause, p.c_str(), p.size()) == 0 && clause[p.size()] == '.') return true;
